@@ -67,29 +67,16 @@ class DecodedStrSectionEditor:
             offset + total_offset_increase
             for offset in decoded_str_section.strings_offsets
         ]
-        # where the new string will start in the data
-        # the start of the last string plus its length plus one for the null terminator
-        # this assumes the offsets are sorted in increasing size, but this doesn't have to be true!
-        highest_offset = None
-        highest_string = None
+        # new strings are appended after the end of the existing string data,
+        # wherever the existing offsets point (they can be shared, unsorted or absent)
+        next_offset = (
+            len(ChkStrTranscoder().encode(decoded_str_section, include_header=False))
+            + total_offset_increase
+        )
         for string_to_add in unique_strings_to_add:
-            if highest_offset is None and highest_string is None:
-                (
-                    highest_offset,
-                    highest_string,
-                ) = self._find_initial_highest_offset_and_string(decoded_str_section)
-                new_offset = (
-                    (highest_offset + total_offset_increase) + len(highest_string) + 1
-                )
-            else:
-                # if they are defined, we use the previous string offset we just added
-                # new_offset = string_offsets[-1] + len(strings_[-1]) + 1
-                # +1 is there to skip the null terminator
-                new_offset = highest_offset + len(highest_string) + 1
-            new_string_offsets.append(new_offset)
-            # set up the next string being added, if any
-            highest_offset = new_offset
-            highest_string = string_to_add
+            new_string_offsets.append(next_offset)
+            # +1 is there to skip the null terminator
+            next_offset += len(string_to_add) + 1
         return DecodedStrSection(
             _number_of_strings=new_number_of_strings,
             _string_offsets=new_string_offsets,
